@@ -459,6 +459,10 @@ func (p *Pkg) checkSplitWrites() (bool, string) {
 func (w *World) rulesBuf(p *Pkg, add func(ok bool, rule, inst string, pos token.Pos, detail string)) {
 	info := p.Info
 	em := p.EmitModel()
+	if em.Fn != nil && em.BufObj != nil && em.MakeCall == nil {
+		add(false, "R14.buf", "Vector.buffer", em.Fn.Pos(), "Vector's buffer is not made in the call (shared scratch space: a returned string changes when Vector is called again, concurrent calls race)")
+		return
+	}
 	if em.Fn == nil || em.BufObj == nil {
 		add(false, "R14.buf", "Vector", token.NoPos, "Vector has no local buffer made in the call: undecided")
 		return
